@@ -265,10 +265,26 @@ func runC08(c *Ctx, r *Rec) {
 			}
 			if bad == "" {
 				if fs, ok := loops[0].(*ast.ForStmt); ok && fs.Cond != nil {
-					if be, ok := ast.Unparen(fs.Cond).(*ast.BinaryExpr); ok {
-						bnd := resolveInit(info, fd, be.Y)
-						if mir.side(bnd) != 0 {
-							bad = "the loop bound is not the first operand's size"
+					for _, cj := range conjuncts(fs.Cond) {
+						be, ok := ast.Unparen(cj).(*ast.BinaryExpr)
+						if !ok || (be.Op != token.LSS && be.Op != token.LEQ && be.Op != token.NEQ) {
+							continue
+						}
+						if _, isVar := ast.Unparen(be.X).(*ast.Ident); !isVar {
+							continue
+						}
+						// after the size test either operand's size bounds the loop; anything else
+						// computed from a size leaves elements out (or reads past the end)
+						bnd := ast.Unparen(resolveInit(info, fd, be.Y))
+						isLen := func(e ast.Expr) bool {
+							_, mname, call, ok := methodCall(ast.Unparen(e))
+							return ok && mname == "Len" && len(call.Args) == 0 && mir.side(e) >= 0
+						}
+						switch {
+						case isLen(bnd) && (be.Op == token.LSS || be.Op == token.NEQ):
+						case be.Op == token.LEQ && isLenMinusOne(info, bnd, isLen):
+						case strings.Contains(exprStr(bnd), "Len()"):
+							bad = fmt.Sprintf("the element loop runs while %s with the bound %s: that is not every position below the operands' size", exprStr(cj), exprStr(bnd))
 						}
 					}
 				}
@@ -556,7 +572,47 @@ func checkGuardedRecursion(c *Ctx, r *Rec, info *types.Info, n *types.Named, ms 
 			cx, _ := node.(*ast.CallExpr)
 			edges = append(edges, edge{name, callee.Name(), false, inc, chk, cx, fd, node.Pos(), how})
 		}
-		inspectNoLit(fd.Body, func(x ast.Node) bool {
+		// a call inside a function literal happens while the call the literal is handed to runs
+		// (visitor helpers): it is placed at that call for the purposes of depth accounting
+		litAnchor := map[*ast.FuncLit]ast.Node{}
+		ast.Inspect(fd.Body, func(x ast.Node) bool {
+			if call, ok := x.(*ast.CallExpr); ok {
+				for _, a := range call.Args {
+					if lit, ok := ast.Unparen(a).(*ast.FuncLit); ok {
+						anchor := ast.Node(call)
+						if up, ok := litAnchor[enclosingLit(fd.Body, call)]; ok {
+							anchor = up
+						}
+						litAnchor[lit] = anchor
+					}
+				}
+			}
+			return true
+		})
+		anchorOf := func(n ast.Node) ast.Node {
+			if lit := enclosingLit(fd.Body, n); lit != nil {
+				if a, ok := litAnchor[lit]; ok {
+					return a
+				}
+			}
+			return n
+		}
+		addEdge0 := addEdge
+		addEdge = func(node ast.Node, callee *types.Func, how string, swapped bool) {
+			if an := anchorOf(node); an != node {
+				n0 := len(edges)
+				addEdge0(an, callee, how+" in a function literal", false)
+				for i := n0; i < len(edges); i++ {
+					edges[i].pos = node.Pos()
+					if cx, ok := node.(*ast.CallExpr); ok {
+						edges[i].call = cx
+					}
+				}
+				return
+			}
+			addEdge0(node, callee, how, swapped)
+		}
+		ast.Inspect(fd.Body, func(x ast.Node) bool {
 			switch e := x.(type) {
 			case *ast.CallExpr:
 				cf := calleeOf(info, e)
@@ -851,8 +907,16 @@ func accessorNames(c *Ctx, info *types.Info, fd *ast.FuncDecl, e ast.Expr, depth
 		switch y := x.(type) {
 		case *ast.Ident:
 			if v, ok := info.Uses[y].(*types.Var); ok && !v.IsField() {
+				if bt, ok := v.Type().Underlying().(*types.Basic); ok && bt.Info()&types.IsNumeric != 0 {
+					return true // a position or a count, not a value that is descended into
+				}
 				if init := initOfIn(info, fd.Body, y); init != nil {
 					out = append(out, accessorNames(c, info, fd, init, depth+1)...)
+				} else if origins := closureParamOrigins(c, info, fd, v); len(origins) > 0 {
+					// a parameter of a function literal handed to a helper: what the helper calls it with
+					for _, o := range origins {
+						out = append(out, accessorNames(c, info, o.fd, o.e, depth+1)...)
+					}
 				} else {
 					// a range variable over an accessor result: for _, x := range v.MapKeys()
 					ast.Inspect(fd.Body, func(z ast.Node) bool {
@@ -980,4 +1044,103 @@ func armLabel(e ast.Expr) string {
 	})
 	sort.Strings(parts)
 	return "cond:" + strings.Join(dedup(parts), "+")
+}
+
+// enclosingLit: the innermost function literal inside root that contains n (nil when none).
+func enclosingLit(root ast.Node, n ast.Node) *ast.FuncLit {
+	var best *ast.FuncLit
+	ast.Inspect(root, func(x ast.Node) bool {
+		if x == nil {
+			return false
+		}
+		if x.Pos() > n.Pos() || x.End() < n.End() {
+			return false
+		}
+		if lit, ok := x.(*ast.FuncLit); ok && ast.Node(lit) != n {
+			best = lit
+		}
+		return true
+	})
+	return best
+}
+
+type exprIn struct {
+	fd *ast.FuncDecl
+	e  ast.Expr
+}
+
+// closureParamOrigins: v is parameter j of a function literal that is argument i of a call to a
+// declared helper of the same package; the origins are the j-th arguments of the calls the
+// helper makes through its parameter i.
+func closureParamOrigins(c *Ctx, info *types.Info, fd *ast.FuncDecl, v *types.Var) []exprIn {
+	var out []exprIn
+	ast.Inspect(fd.Body, func(x ast.Node) bool {
+		call, ok := x.(*ast.CallExpr)
+		if !ok {
+			return true
+		}
+		for ai, a := range call.Args {
+			lit, ok := ast.Unparen(a).(*ast.FuncLit)
+			if !ok || lit.Type.Params == nil {
+				continue
+			}
+			j, k := -1, 0
+			for _, f := range lit.Type.Params.List {
+				for _, nm := range f.Names {
+					if info.Defs[nm] == types.Object(v) {
+						j = k
+					}
+					k++
+				}
+			}
+			if j < 0 {
+				continue
+			}
+			cf := calleeOf(info, call)
+			if cf == nil {
+				continue
+			}
+			d := c.declOf(cf)
+			if d == nil || d.Body == nil || c.infoFor(d) != info {
+				continue
+			}
+			var ps []types.Object
+			for _, f := range d.Type.Params.List {
+				for _, nm := range f.Names {
+					ps = append(ps, info.Defs[nm])
+				}
+			}
+			if ai >= len(ps) || ps[ai] == nil {
+				continue
+			}
+			ast.Inspect(d.Body, func(y ast.Node) bool {
+				if hc, ok := y.(*ast.CallExpr); ok {
+					if id, ok := ast.Unparen(hc.Fun).(*ast.Ident); ok && info.Uses[id] == ps[ai] && j < len(hc.Args) {
+						out = append(out, exprIn{d, hc.Args[j]})
+					}
+				}
+				return true
+			})
+		}
+		return true
+	})
+	return out
+}
+
+// conjuncts splits a condition at its top-level && operators.
+func conjuncts(e ast.Expr) []ast.Expr {
+	e = ast.Unparen(e)
+	if be, ok := e.(*ast.BinaryExpr); ok && be.Op == token.LAND {
+		return append(conjuncts(be.X), conjuncts(be.Y)...)
+	}
+	return []ast.Expr{e}
+}
+
+func isLenMinusOne(info *types.Info, e ast.Expr, isLen func(ast.Expr) bool) bool {
+	be, ok := ast.Unparen(e).(*ast.BinaryExpr)
+	if !ok || be.Op != token.SUB || !isLen(be.X) {
+		return false
+	}
+	tv, ok := info.Types[be.Y]
+	return ok && tv.Value != nil && tv.Value.String() == "1"
 }
